@@ -148,6 +148,15 @@ Proof.
   destruct (flush_output _ cb _) as [[n c2] cb2]. reflexivity.
 Qed.
 
+Lemma steps_measure' {S R : Type} (f : S -> S + R) (I : S -> Prop) (m : S -> nat) :
+  (forall s s', I s -> f s = inl s' -> I s' /\ (m s' < m s)%nat) ->
+  forall n s, I s -> (m s < n)%nat -> exists r, steps f n s = inr r.
+Proof.
+  intros H. induction n as [|n IH]; intros s HI Hlt; [lia|]. cbn [steps].
+  destruct (f s) as [s'|r] eqn:E; [|eauto].
+  destruct (H s s' HI E) as [HI' Hd]. apply IH; [exact HI'|lia].
+Qed.
+
 Section Sched.
 Variables (data : list N) (flags wb : N).
 Hypothesis Hraw : hasf flags FLAG_RAW = true.
@@ -158,11 +167,14 @@ Notation BI2' := (BI2 data flags wb).
 Notation SQ2' := (SQ2 data flags wb).
 Notation GI2' := (GI2 data flags wb).
 
-Lemma stored_turn_np2 R A C0 E f s :
+Definition SQret (r : res stres) : Prop :=
+  match r with Ret (SRet ok c cb src) => Dz c | _ => False end.
+
+Lemma stored_turn_ret2 R A C0 E f s :
   A < 2 ^ 32 -> legal_flush f -> SI2' R A C0 E f s -> Dzs s ->
   match stored_turn s with
   | inl s' => Dzs s'
-  | inr r => SQnp r
+  | inr r => SQret r
   end.
 Proof.
   intros HA Hlf HSI HDz.
@@ -171,7 +183,7 @@ Proof.
   unfold Dzs in HDz.
   unfold stored_turn. cbv zeta. rewrite Hfl.
   destruct ((0 <? s_inleft s) || negb (f =? TF_NONE) && negb (s_ls s =? 0)) eqn:Econd.
-  2:{ unfold SQnp, Dz. cbn [set_la mkc c_total_bytes c_dsize]. exact HDz. }
+  2:{ unfold SQret, Dz. cbn [set_la mkc c_total_bytes c_dsize]. exact HDz. }
   unfold csub, C_MAX_MATCH. replace (s_ls s <=? 258) with true by (symmetry; apply N.leb_le; lia).
   set (n := N.min (s_inleft s) (258 - s_ls s)).
   assert (Hn2 : s_ls s + n <= 258) by (unfold n; lia).
@@ -180,7 +192,7 @@ Proof.
     - apply N.ltb_lt in X. unfold n. lia.
     - apply andb_true_iff in X. destruct X as [_ X]. apply negb_true_iff, N.eqb_neq in X. lia. }
   destruct ((f =? TF_NONE) && (s_ls s + n <? 258)) eqn:Eearly.
-  { unfold SQnp, Dz. cbn [set_la mkc c_total_bytes c_dsize]. unfold C_DICT_SIZE, BS in *. lia. }
+  { unfold SQret, Dz. cbn [set_la mkc c_total_bytes c_dsize]. unfold C_DICT_SIZE, BS in *. lia. }
   replace (1 <=? s_ls s + n) with true by (symmetry; apply N.leb_le; exact Hpos).
   destruct (31744 <? s_bw s + 1) eqn:Ebw.
   - apply N.ltb_lt in Ebw. assert (Hbw1 : s_bw s + 1 = BS) by (unfold BS in *; lia).
@@ -190,7 +202,7 @@ Proof.
       apply flush_output_fields in Efo. destruct Efo as [Et Ed].
       unfold after_block in Et, Ed. cbn [mkc c_total_bytes c_dsize] in Et, Ed.
       destruct (negb (nn =? 0)%Z).
-      * unfold SQnp, Dz. rewrite Et. lia.
+      * unfold SQret, Dz. rewrite Et. lia.
       * unfold Dzs. cbn [s_bw s_c]. rewrite Et. lia.
     + unfold c1. cbn [set_la mkc c_flags]. rewrite F1. exact Hraw.
     + unfold c1. cbn [set_la mkc c_sbuf]. exact F3.
@@ -202,6 +214,46 @@ Proof.
     + unfold c1. cbn [set_la mkc c_la_pos c_cbdp c_total_bytes]. lia.
     + unfold c1. cbn [set_la mkc c_total_bytes c_dsize]. unfold C_DICT_SIZE, BS in *. lia.
   - apply N.ltb_ge in Ebw. unfold Dzs. cbn [s_bw s_c set_la mkc c_dsize]. unfold C_DICT_SIZE. lia.
+Qed.
+
+Lemma stored_turn_np2 R A C0 E f s :
+  A < 2 ^ 32 -> legal_flush f -> SI2' R A C0 E f s -> Dzs s ->
+  match stored_turn s with
+  | inl s' => Dzs s'
+  | inr r => SQnp r
+  end.
+Proof.
+  intros HA Hlf HSI HDz. pose proof (stored_turn_ret2 R A C0 E f s HA Hlf HSI HDz) as X.
+  destruct (stored_turn s) as [s'|r]; [exact X|]. destruct r as [[ok c cb src|]| |]; try contradiction. exact X.
+Qed.
+
+(* every turn of the engine that continues has moved one byte out of (input still offered + look-ahead) *)
+Lemma stored_turn_measure R A C0 E f s s' :
+  SI2' R A C0 E f s -> stored_turn s = inl s' -> s_inleft s' + s_ls s' + 1 = s_inleft s + s_ls s.
+Proof.
+  intros HSI.
+  destruct HSI as (Hfix & Hfl & Hpe & Hin & Hil & HleE & HEt & Hsrc & Hlp & Hbw & Hls & Hd & Hcbuf & Hem).
+  unfold stored_turn. cbv zeta.
+  destruct ((0 <? s_inleft s) || negb (c_flush (s_c s) =? TF_NONE) && negb (s_ls s =? 0)) eqn:Econd; [|discriminate].
+  unfold csub, C_MAX_MATCH. replace (s_ls s <=? 258) with true by (symmetry; apply N.leb_le; lia).
+  set (n := N.min (s_inleft s) (258 - s_ls s)).
+  assert (Hpos : 1 <= s_ls s + n).
+  { apply orb_true_iff in Econd. destruct Econd as [X|X].
+    - apply N.ltb_lt in X. unfold n. lia.
+    - apply andb_true_iff in X. destruct X as [_ X]. apply negb_true_iff, N.eqb_neq in X. lia. }
+  destruct ((c_flush (s_c s) =? TF_NONE) && (s_ls s + n <? 258)); [discriminate|].
+  replace (1 <=? s_ls s + n) with true by (symmetry; apply N.leb_le; exact Hpos).
+  destruct (31744 <? s_bw s + 1).
+  - destruct (flush_block _ _ _) as [[nn c2 cb2|c2 cb2|]| |]; try discriminate.
+    destruct (negb (nn =? 0)%Z); [discriminate|].
+    intros H; inversion H; subst s'; clear H. cbn [s_inleft s_ls]. unfold n. lia.
+  - intros H; inversion H; subst s'; clear H. cbn [s_inleft s_ls]. unfold n. lia.
+Qed.
+
+Lemma pow40_nat' n : N.of_nat n < 2 ^ 40 -> (n < 2 ^ 40)%nat.
+Proof.
+  intros H. apply Nat.compare_lt_iff. rewrite Nat2N.inj_compare. apply N.compare_lt_iff.
+  rewrite Nat2N.inj_pow. exact H.
 Qed.
 
 Lemma compress_stored_np2 R A c cb input E f :
@@ -230,6 +282,46 @@ Proof.
   { intros s r [Hs Hz] Ht. pose proof (stored_turn_np2 R A C0 E f s HA Hlf Hs Hz) as X. rewrite Ht in X. exact X. }
   specialize (H H1 H2 40%nat s0 H0).
   destruct (iter_pow 40 stored_turn s0) as [s'|rr]; [exact I|exact H].
+Qed.
+
+(* the engine returns: it neither panics nor runs out of fuel, for inputs under 2^40 bytes *)
+Lemma compress_stored_returns R A c cb input E f :
+  A < 2 ^ 32 -> legal_flush f -> BI2' R A c cb -> c_flush c = f -> c_pending c = [] -> Dz c ->
+  c_la_pos c + c_la_size c <= E -> E <= total data ->
+  input = slice data (c_la_pos c + c_la_size c) E ->
+  N.of_nat (length input) + c_la_size c + 1 < 2 ^ 40 ->
+  exists ok c' cb' src, compress_stored c cb input = Ret (SRet ok c' cb' src).
+Proof.
+  intros HA Hlf HBI Hfl Hpe HDz HCE HEt Hin Hsmall.
+  unfold compress_stored.
+  set (s0 := {| s_c := c; s_cb := cb; s_in := input; s_inleft := N.of_nat (length input); s_src := 0;
+               s_bw := c_total_bytes c; s_ls := c_la_size c; s_lp := c_la_pos c |}).
+  set (C0 := c_la_pos c + c_la_size c).
+  assert (H0 : SI2' R A C0 E f s0).
+  { destruct HBI as (Hfix & Hle & Hlp & Htb & Hls & Hd & Hcbuf & Hem).
+    unfold SI2, s0. cbn [s_c s_cb s_in s_inleft s_src s_bw s_ls s_lp].
+    destruct Hfix as (F1 & F2 & F3 & F4 & F5 & F6). unfold cfix.
+    repeat split; try assumption; try (unfold C0; lia).
+    subst input. apply (slice_length data wb Hwb); assumption. }
+  set (mu := fun s : sstate => N.to_nat (s_inleft s + s_ls s)).
+  assert (H1 : forall s s', SI2' R A C0 E f s -> stored_turn s = inl s' -> SI2' R A C0 E f s' /\ (mu s' < mu s)%nat).
+  { intros s s' Hs Ht. split.
+    - pose proof (stored_turn_SI2 data flags wb Hraw Hwb R A C0 E f s HA Hlf Hs) as X. rewrite Ht in X. exact X.
+    - pose proof (stored_turn_measure R A C0 E f s s' Hs Ht). unfold mu. lia. }
+  destruct (steps_measure' stored_turn (SI2' R A C0 E f) mu H1 (S (mu s0)) s0 H0 (Nat.lt_succ_diag_r _)) as [r Hr].
+  assert (Hle : (S (mu s0) <= 2 ^ 40)%nat).
+  { assert (X : (mu s0 < 2 ^ 40)%nat); [|exact X]. apply pow40_nat'. unfold mu, s0. cbn [s_inleft s_ls]. rewrite N2Nat.id. lia. }
+  rewrite (iter_pow_inr stored_turn _ 40 s0 r Hr Hle).
+  (* the result comes from a turn taken in a state satisfying the invariants *)
+  assert (HQ : SQret r).
+  { pose proof (steps_inv stored_turn (fun s => SI2' R A C0 E f s /\ Dzs s) SQret) as X.
+    assert (X1 : forall s s', SI2' R A C0 E f s /\ Dzs s -> stored_turn s = inl s' -> SI2' R A C0 E f s' /\ Dzs s').
+    { intros s s' [Hs Hz] Ht. split; [exact (proj1 (H1 s s' Hs Ht))|].
+      pose proof (stored_turn_ret2 R A C0 E f s HA Hlf Hs Hz) as Y. rewrite Ht in Y. exact Y. }
+    assert (X2 : forall s r0, SI2' R A C0 E f s /\ Dzs s -> stored_turn s = inr r0 -> SQret r0).
+    { intros s r0 [Hs Hz] Ht. pose proof (stored_turn_ret2 R A C0 E f s HA Hlf Hs Hz) as Y. rewrite Ht in Y. exact Y. }
+    specialize (X X1 X2 (S (mu s0)) s0 (conj H0 HDz)). rewrite Hr in X. exact X. }
+  destruct r as [[ok c' cb' src|]| |]; try contradiction. eauto.
 Qed.
 
 Definition CRnp2 (r : res cres) : Prop :=
@@ -334,6 +426,107 @@ Proof.
     unfold CRnp2, Dz in *. cbn [r_comp set_prev mkc c_total_bytes c_dsize]. rewrite Ht3, Hd3, Htb2, Hds2. exact HSn.
 Qed.
 
+Definition CRret (r : res cres) : Prop :=
+  match r with Ret (CRet r) => Dz (r_comp r) | _ => False end.
+
+(* ... and it returns, for chunks under 2^40 bytes *)
+Lemma compress_ret2 R c n input E out_len f :
+  N.of_nat (length input) + 259 < 2 ^ 40 ->
+  legal_flush f -> GI2' R c n -> Dz c ->
+  (c_finished c = false -> n <= E /\ E <= total data /\ input = slice data n E) ->
+  CRret (compress c input out_len f).
+Proof.
+  intros Hsmall Hlf HGI HDz Hpre. pose proof HGI as [Hprev HG].
+  unfold compress, compress_inner. rewrite Hprev. cbn [negb orb].
+  destruct (negb (negb (c_flush c =? TF_FINISH) || (f =? TF_FINISH))).
+  { unfold CRret, Dz in *. cbn [r_comp set_prev set_flush mkc c_total_bytes c_dsize]. exact HDz. }
+  set (c0 := set_flush c f).
+  set (cb0 := CBuf out_len [] 0).
+  assert (Hdrain : forall st c' cb', flush_output_buffer c0 cb0 = (st, c', cb') ->
+            CRret (Ret (CRet {| r_status := st; r_in := 0; r_out := cb_written cb'; r_comp := set_prev c' st; r_cb := cb' |}))).
+  { intros st c' cb' Hf. apply fob_np in Hf. destruct Hf as (_ & Ht & Hd).
+    unfold CRret, Dz in *. cbn [r_comp set_prev mkc c_total_bytes c_dsize]. rewrite Ht, Hd. exact HDz. }
+  change (c_pending c0) with (c_pending c). change (c_finished c0) with (c_finished c).
+  change (c_flags c0) with (c_flags c).
+  destruct HG as [(A & HBI & HAv & Hn & Had)|[Hfin Hfw]].
+  2:{ rewrite Hfin, orb_true_r.
+      destruct (flush_output_buffer c0 cb0) as [[st c'] cb'] eqn:Ef. apply Hdrain. reflexivity. }
+  pose proof (adler_lt wb Hwb A HAv) as HA.
+  pose proof HBI as (Hfix & Hle & Hlp & Htb & Hls & Hd & Hcbuf & Hem).
+  destruct Hfix as (F1 & F2 & F3 & F4 & F5 & F6).
+  rewrite F5, orb_false_r.
+  destruct (Hpre F5) as (HnE & HEt & Hin). clear Hpre.
+  destruct (c_pending c) as [|p ps] eqn:Hpe; cbn [negb].
+  2:{ destruct (flush_output_buffer c0 cb0) as [[st c'] cb'] eqn:Ef. apply Hdrain. reflexivity. }
+  clear Hdrain.
+  rewrite F1, Hraw. cbn [negb].
+  assert (HBI0 : BI2' R A c0 cb0).
+  { unfold BI2, cfix, c0, cb0.
+    cbn [set_flush mkc c_flags c_wbits c_sbuf c_sbits c_finished c_adler c_la_pos c_la_size
+         c_cbdp c_total_bytes c_block_index c_dict c_pending].
+    repeat split; try assumption; eauto.
+    all: try (destruct Hem as (chunks & H1 & H2 & H3 & H4); exists chunks;
+              cbn [set_flush mkc c_cbdp c_block_index c_pending cb_written rev_append app] in *;
+              try rewrite Hpe in *; repeat split; assumption). }
+  subst n.
+  pose proof (compress_stored_post2 data flags wb Hraw Hwb R A c0 cb0 input E f HA Hlf HBI0 eq_refl Hpe HnE HEt Hin) as HS.
+  pose proof (compress_stored_np2 R A c0 cb0 input E f HA Hlf HBI0 eq_refl Hpe HDz HnE HEt Hin) as HSn.
+  change (c_la_pos c0 + c_la_size c0) with (c_la_pos c + c_la_size c) in HS.
+  destruct (compress_stored_returns R A c0 cb0 input E f HA Hlf HBI0 eq_refl Hpe HDz HnE HEt Hin)
+    as (ok & c1 & cb1 & src & Ecs).
+  { change (c_la_size c0) with (c_la_size c). lia. }
+  rewrite Ecs in HS, HSn |- *. cbn [bind].
+  destruct HS as (Hok & HBI1 & Hfl1 & Hsrc & HsrcE & Hend). subst ok.
+  unfold SQnp in HSn.
+  pose proof HBI1 as (Hfix1 & Hle1 & Hlp1 & Htb1 & Hls1 & Hd1 & Hcbuf1 & Hem1).
+  destruct Hfix1 as (G1 & G2 & G3 & G4 & G5 & G6).
+  set (c2 := if hasf (c_flags c1) FLAG_ZLIB || hasf (c_flags c1) FLAG_ADLER
+             then set_adler c1 (adler32 (c_adler c1) (firstn (N.to_nat src) input)) else c1).
+  assert (H2 : c_flags c2 = flags /\ c_wbits c2 = wb /\ c_sbuf c2 = 0 /\ c_sbits c2 = 0 /\
+               c_flush c2 = f /\ c_pending c2 = c_pending c1 /\ c_la_pos c2 = c_la_pos c1 /\
+               c_la_size c2 = c_la_size c1 /\ c_cbdp c2 = c_cbdp c1 /\ c_total_bytes c2 = c_total_bytes c1 /\
+               c_dsize c2 = c_dsize c1).
+  { unfold c2. rewrite G1. destruct (hasf flags FLAG_ZLIB || hasf flags FLAG_ADLER);
+      cbn [set_adler mkc c_flags c_wbits c_sbuf c_sbits c_finished c_adler c_la_pos c_la_size c_flush c_prev
+           c_cbdp c_total_bytes c_block_index c_dict c_pending c_dsize]; repeat split; try assumption; try reflexivity. }
+  destruct H2 as (K1 & K2 & K3 & K4 & Hfl2 & Hpe2 & Hlp2 & Hls2 & Hcb2 & Htb2 & Hds2).
+  clearbody c2.
+  rewrite Hfl2, Hls2, Hpe2.
+  destruct Hcbuf1 as (len1 & w1 & ofs1 & Ecb1).
+  match goal with |- CRret (bind (if ?b then _ else _) _) => destruct b eqn:Efin end.
+  - apply andb_true_iff in Efin. destruct Efin as [E0 E2]. apply andb_true_iff in E0. destruct E0 as [Enn E1].
+    apply negb_true_iff, orb_false_iff in E2. destruct E2 as [_ E3].
+    apply negb_false_iff in E3. destruct (c_pending c1) as [|? ?] eqn:Hp1; [|discriminate]. clear E3.
+    rewrite (flush_block_gen_eq c2 cb1 f);
+      [|rewrite K1; exact Hraw|exact K3|exact K4|rewrite K2; exact Hwb|exact Hlf|exact Hpe2
+       |rewrite Htb2; unfold BS in *; lia|rewrite Hlp2, Hcb2, Htb2; exact Hlp1
+       |unfold Dz in HSn; rewrite Htb2, Hds2; exact HSn].
+    cbn [bind]. rewrite Ecb1.
+    destruct (flush_output (after_block c2) (CBuf len1 w1 ofs1) (gblock_bytes c2 f)) as [[nn c3] cb3] eqn:Efo.
+    pose proof (flush_output_nonneg wb Hwb _ _ _ _ _ _ _ _ Efo) as Hn0.
+    pose proof (flush_output_fields _ _ _ _ _ _ Efo) as [Et3 Ed3].
+    unfold after_block in Et3, Ed3. cbn [mkc c_total_bytes c_dsize] in Et3, Ed3.
+    replace (nn <? 0)%Z with false by (symmetry; apply Z.ltb_ge; exact Hn0).
+    cbn [bind].
+    assert (Hcb3 : exists w3 ofs3, cb3 = CBuf len1 w3 ofs3).
+    { unfold flush_output in Efo. destruct (N.of_nat (length (gblock_bytes c2 f)) =? 0); [inversion Efo; eauto|].
+      destruct (ntake (gblock_bytes c2 f) (len1 - ofs1)) as [[now later] k]. inversion Efo; eauto. }
+    destruct Hcb3 as (w3 & ofs3 & ->).
+    set (c4 := if c_flush (set_finished c3 (c_flush c3 =? TF_FINISH)) =? TF_FULL
+               then set_dsize (set_finished c3 (c_flush c3 =? TF_FINISH)) 0
+               else set_finished c3 (c_flush c3 =? TF_FINISH)).
+    assert (Hc4 : c_total_bytes c4 <= c_dsize c4).
+    { unfold c4. destruct (_ =? TF_FULL); cbn [set_dsize set_finished mkc c_total_bytes c_dsize]; rewrite Et3; lia. }
+    clearbody c4.
+    destruct (flush_output_buffer c4 (CBuf len1 w3 ofs3)) as [[st c5] cb5] eqn:Ef5.
+    apply fob_np in Ef5. destruct Ef5 as (_ & Ht5 & Hd5).
+    unfold CRret, Dz. cbn [r_comp set_prev mkc c_total_bytes c_dsize]. rewrite Ht5, Hd5. exact Hc4.
+  - cbn [bind]. rewrite Ecb1.
+    destruct (flush_output_buffer c2 (CBuf len1 w1 ofs1)) as [[st c3] cb3] eqn:Ef3.
+    apply fob_np in Ef3. destruct Ef3 as (_ & Ht3 & Hd3).
+    unfold CRret, Dz in *. cbn [r_comp set_prev mkc c_total_bytes c_dsize]. rewrite Ht3, Hd3, Htb2, Hds2. exact HSn.
+Qed.
+
 (* every schedule *)
 Theorem drive_np : forall sched c rest acc n,
   Forall (fun it => legal_flush (snd it)) sched ->
@@ -369,6 +562,44 @@ Proof.
   rewrite (Hrest Hcf), skipn_skipn_add. f_equal. lia.
 Qed.
 
+(* every schedule returns *)
+Theorem drive_returns : N.of_nat (length data) + 259 < 2 ^ 40 -> forall sched c rest acc n,
+  Forall (fun it => legal_flush (snd it)) sched ->
+  GI2' acc c n -> Dz c -> (c_finished c = false -> rest = skipn (N.to_nat n) data) ->
+  (exists k, rest = skipn k data) ->
+  exists result, drive c rest sched acc n = Ret result.
+Proof.
+  intros Hsmall. induction sched as [|[[m out_len] f] sched IH]; intros c rest acc n Hleg HGI HDz Hrest Hsuf; cbn [drive]; [eexists; reflexivity|].
+  inversion Hleg as [|it its Hf Hl']; subst. cbn [snd] in Hf.
+  assert (Hpre : c_finished c = false ->
+                 n <= N.min (n + m) (total data) /\ N.min (n + m) (total data) <= total data /\
+                 firstn (N.to_nat m) rest = slice data n (N.min (n + m) (total data))).
+  { intros Hnf. destruct HGI as [_ [(A & HBI & _ & Hn & _)|[Hfin _]]]; [|congruence].
+    destruct HBI as (_ & Hle & _). subst n.
+    split; [lia|]. split; [lia|].
+    rewrite (Hrest Hnf). unfold slice. rewrite firstn_min, skipn_length. f_equal. unfold StoredModel.total in *. lia. }
+  assert (Hlen : N.of_nat (length (firstn (N.to_nat m) rest)) + 259 < 2 ^ 40).
+  { destruct Hsuf as [k ->]. rewrite firstn_length, skipn_length. lia. }
+  pose proof (compress_ret2 acc c n _ _ out_len f Hlen Hf HGI HDz Hpre) as Hnp.
+  destruct (compress c (firstn (N.to_nat m) rest) out_len f) as [cr| |] eqn:Ec; cbn [bind]; try contradiction.
+  destruct cr as [r|]; [|contradiction].
+  pose proof (compress_GI2 data flags wb Hraw Hwb acc c n _ _ out_len f r Hf HGI Hpre Ec) as Hp.
+  unfold call_post2 in Hp. unfold CRret in Hnp.
+  destruct (r_status r); try (eexists; reflexivity).
+  apply (IH (r_comp r) _ _ _ Hl' Hp Hnp); [|destruct Hsuf as [k ->]; exists (k + N.to_nat (r_in r))%nat; apply skipn_skipn_add].
+  intros Hnf. destruct Hp as [_ [(A & HBI & _ & Hn' & _)|[Hfin _]]]; [|congruence].
+  assert (Hcf : c_finished c = false).
+  { destruct HGI as [_ [(A0 & (Hfx & _) & _)|[Hfin Hfw]]]; [destruct Hfx as (_ & _ & _ & _ & X & _); exact X|].
+    exfalso. clear - Hfin Hnf Ec. unfold compress, compress_inner in Ec.
+    destruct (negb _ || negb _); [inversion Ec; subst r; cbn in Hnf; congruence|].
+    change (c_finished (set_flush c f)) with (c_finished c) in Ec. rewrite Hfin, orb_true_r in Ec.
+    destruct (flush_output_buffer (set_flush c f) (CBuf out_len [] 0)) as [[st c'] cb'] eqn:Ef.
+    apply fob_vout in Ef. destruct Ef as (_ & _ & Ec' & _).
+    inversion Ec; subst r; clear Ec. cbn [r_comp] in Hnf. rewrite Ec' in Hnf. cbn in Hnf. congruence. }
+  pose proof (compress_counts _ _ _ _ _ Ec) as [Hrin _].
+  rewrite (Hrest Hcf), skipn_skipn_add. f_equal. lia.
+Qed.
+
 End Sched.
 
 (* ------------------------------------------------------------------ the statement *)
@@ -381,4 +612,17 @@ Proof.
   apply (drive_np data flags wb Hraw Hwb sched (comp_new flags wb) data [] 0 Hleg (GI2_init data flags wb)).
   - unfold Dz, comp_new. cbn. lia.
   - intros _. reflexivity.
+Qed.
+
+Theorem level0_every_schedule_returns (data : list N) (flags wb : N) sched :
+  hasf flags FLAG_RAW = true -> wb <= 15 ->
+  Forall (fun it => legal_flush (snd it)) sched ->
+  N.of_nat (length data) + 259 < 2 ^ 40 ->
+  exists result, drive (comp_new flags wb) data sched [] 0 = Ret result.
+Proof.
+  intros Hraw Hwb Hleg Hsmall.
+  apply (drive_returns data flags wb Hraw Hwb Hsmall sched (comp_new flags wb) data [] 0 Hleg (GI2_init data flags wb)).
+  - unfold Dz, comp_new. cbn. lia.
+  - intros _. reflexivity.
+  - exists 0%nat. reflexivity.
 Qed.
